@@ -208,6 +208,11 @@ impl Compactor {
 		}
 
 		writer.finish()?;
+
+		// The manifest is about to reference this table and the input tables are
+		// about to be deleted: its contents must be on disk before that, or a power
+		// loss leaves a manifest pointing at an empty or truncated file.
+		crate::vfs::open_for_sync(path)?.sync_all()?;
 		Ok(true)
 	}
 
